@@ -514,6 +514,12 @@ func sparseKeysUniverse(r *rand.Rand, bits int, maxAtoms int) (*Universe, []iset
 			keys = append(keys, k)
 			k += uint64(1 + r.Intn(3))
 		}
+		if r.Intn(4) == 0 { // the last key at (or next to) the very top of the key space
+			d := maxKey - uint64(r.Intn(3)) - keys[len(keys)-1]
+			for i := range keys {
+				keys[i] += d
+			}
+		}
 		ng := 3 + r.Intn(2)
 		gens := make([]iset, ng)
 		for i := range gens {
@@ -523,7 +529,9 @@ func sparseKeysUniverse(r *rand.Rand, bits int, maxAtoms int) (*Universe, []iset
 					continue
 				}
 				b := key << shift
-				switch r.Intn(6) {
+				switch r.Intn(8) {
+				case 6, 7: // a completely full chunk (stored as one run)
+					sps = append(sps, span{b, b + 65535})
 				case 0:
 					sps = append(sps, span{b + 5, b + 5})
 				case 1:
